@@ -77,6 +77,30 @@ func (w *RecWriter) Write(p []byte) (int, error) {
 	return len(p), nil
 }
 
+// ShortWriter takes at most a few bytes per call and reports the short count
+// without an error (not what io.Writer asks for, but what basic.WriteN's
+// retry loop exists for).
+type ShortWriter struct {
+	Data  []byte
+	Calls []int
+	R     *rand.Rand
+}
+
+func (w *ShortWriter) Write(p []byte) (int, error) {
+	n := len(p)
+	if n > 1 {
+		switch w.R.IntN(3) {
+		case 0:
+			n = 1 + w.R.IntN(n)
+		case 1:
+			n = 1 + w.R.IntN(min(n, 40))
+		}
+	}
+	w.Data = append(w.Data, p[:n]...)
+	w.Calls = append(w.Calls, n)
+	return n, nil
+}
+
 // SlowWriter is a stream whose Write takes its bytes in two instalments with
 // a pause in between (a blocking write to a slow peer): whoever else runs in
 // the pause must not be able to change what the second instalment carries.
